@@ -66,14 +66,27 @@ type c01Roots struct {
 	certs []*x509.Certificate
 }
 
+// c01Pools keeps ONE pool object per root set for the whole run, as a long-running verifier does: an
+// implementation that remembers earlier verdicts per pool (or per certificate) is then exercised with the
+// history the sweeps create (a valid time first, then times outside either certificate's validity).
+var c01Pools = map[string]*x509.CertPool{}
+
 func (r c01Roots) pool() *x509.CertPool {
 	if r.nilP {
 		return nil
+	}
+	key := r.desc
+	for _, c := range r.certs {
+		key += "/" + hx(c.Raw[len(c.Raw)-8:])
+	}
+	if p, ok := c01Pools[key]; ok {
+		return p
 	}
 	p := x509.NewCertPool()
 	for _, c := range r.certs {
 		p.AddCert(c)
 	}
+	c01Pools[key] = p
 	return p
 }
 
@@ -1042,7 +1055,13 @@ func runC01(c *Ctx) {
 	for _, ca := range []*miniCA{env.caC, env.caD} {
 		gen := c01Mutant{"genuine-" + ca.name + "-ca", c01Resign(env.crng, env.goldenFor(ca.leaf), ca.leafKey)}
 		r := c01Roots{desc: ca.name + "-root", certs: []*x509.Certificate{ca.root}}
-		for _, t := range append(append(window("signer", ca.leaf), window("root", ca.root)...), c01Time{"mid-window", baseTime.Add(50 * 24 * time.Hour)}) {
+		// a time inside both windows first (and again between the boundary times): verdicts must not carry over
+		mid := c01Time{"mid-window", baseTime.Add(50 * 24 * time.Hour)}
+		ts := []c01Time{mid}
+		for _, t := range append(window("signer", ca.leaf), window("root", ca.root)...) {
+			ts = append(ts, t, mid)
+		}
+		for _, t := range ts {
 			env.runScenario(c01Scenario{gen, r, t}, false)
 			c.Count("scenario/time-sweep")
 		}
